@@ -4,6 +4,8 @@ package c08
 
 import (
 	"fmt"
+	"google.golang.org/protobuf/proto"
+	"sort"
 	"strings"
 	"time"
 
@@ -430,7 +432,71 @@ func pairHistories(c *engine.Ctx) {
 	}
 }
 
+// edgeTypeSweep: merging, removal and extraction over every edge type number (declared and undeclared) and every
+// pair of them on one source: several edge objects per (source, type), repeated targets.
+func edgeTypeSweep(c *engine.Ctx) {
+	c.Group("edge-type-sweep")
+	var ts []int
+	for t := range sbom.Edge_Type_name {
+		ts = append(ts, int(t))
+	}
+	ts = append(ts, -1, 45, 46, 64, 99, 1000, 1001)
+	sort.Ints(ts)
+	type mop struct {
+		Name  string
+		Exact bool // the set of triples must be unchanged
+		Do    func(nl *sbom.NodeList) *sbom.NodeList
+	}
+	mk := func(t1, t2 int) *sbom.NodeList {
+		e := func(ty int, to ...string) *sbom.Edge { return &sbom.Edge{From: "a", Type: sbom.Edge_Type(ty), To: to} }
+		return &sbom.NodeList{Nodes: []*sbom.Node{{Id: "a"}, {Id: "b"}, {Id: "c"}}, RootElements: []string{"a"},
+			Edges: []*sbom.Edge{e(t1, "b"), e(t2, "c"), e(t1, "c", "b"), e(t2, "c")}}
+	}
+	ops := []mop{
+		{"Union(copy)", true, func(nl *sbom.NodeList) *sbom.NodeList { return nl.Union(proto.Clone(nl).(*sbom.NodeList)) }},
+		{"Intersect(copy)", true, func(nl *sbom.NodeList) *sbom.NodeList { return nl.Intersect(proto.Clone(nl).(*sbom.NodeList)) }},
+		{"Add(copy)", true, func(nl *sbom.NodeList) *sbom.NodeList { nl.Add(proto.Clone(nl).(*sbom.NodeList)); return nl }},
+		{"RemoveNodes(absent)", true, func(nl *sbom.NodeList) *sbom.NodeList { nl.RemoveNodes([]string{"zz"}); return nl }},
+		{"NodeGraph(a)", true, func(nl *sbom.NodeList) *sbom.NodeList { return nl.NodeGraph("a") }},
+		{"NodeDescendants(a,3)", true, func(nl *sbom.NodeList) *sbom.NodeList { return nl.NodeDescendants("a", 3) }},
+		{"NodeSiblings(b)", false, func(nl *sbom.NodeList) *sbom.NodeList { return nl.NodeSiblings("b") }},
+	}
+	c.Bound("edge-type-sweep", fmt.Sprintf("%d edge type numbers (all declared + undeclared): every unordered pair (incl. twice the same) on one source, two edge objects per type with a repeated target, x %d operations", len(ts), len(ops)))
+	for i, t1 := range ts {
+		for _, t2 := range ts[i:] {
+			for oi := range ops {
+				t1, t2, oi := t1, t2, oi
+				c.Case(func() any { return map[string]any{"types": []int{t1, t2}, "op": ops[oi].Name} }, func(t *engine.T) *engine.Violation {
+					in := mk(t1, t2)
+					want := gen.ModelOf(in)
+					res := ops[oi].Do(in)
+					t.Transitions(1)
+					t.Validated(1)
+					if res == nil {
+						return engine.Violate("wellformed", "edge-type", "%s with edge types %d,%d returned nil", ops[oi].Name, t1, t2)
+					}
+					if w := gen.WellFormed(res); w != "" {
+						return engine.Violate("wellformed", "edge-type", "%s with edge types %d,%d: %s", ops[oi].Name, t1, t2, w)
+					}
+					if w := gen.Normalised(res); w != "" {
+						return engine.Violate("normalised", "edge-type", "%s with edge types %d,%d: result %s is not normalised: %s", ops[oi].Name, t1, t2, gen.CanonKey(res), w)
+					}
+					if ops[oi].Exact {
+						if got := gen.ModelOf(res); got.SetKey() != want.SetKey() {
+							return engine.Violate("edges-exact", "edge-type", "%s with edge types %d,%d changed the set of typed edges: got %s want %s", ops[oi].Name, t1, t2, got.SetKey(), want.SetKey())
+						}
+					}
+					t.State(fmt.Sprint("ets", t1, t2, oi))
+					t.Outcome("edge-type-ok")
+					return nil
+				})
+			}
+		}
+	}
+}
+
 func Run(c *engine.Ctx) {
+	edgeTypeSweep(c)
 	pairHistories(c)
 	all := ops()
 	inits := initials(c.Thorough())
